@@ -205,6 +205,12 @@ func TestVerifC07Run(t *testing.T) {
 		skip = v
 	}
 
+	// stop by ourselves (normal exit) when the driver's time budget is used up
+	deadline := time.Now().Add(24 * time.Hour)
+	if v, err := strconv.Atoi(os.Getenv("VERIF_BUDGET_S")); err == nil && v > 0 {
+		deadline = time.Now().Add(time.Duration(v) * time.Second)
+	}
+
 	settings.SetDefault(defs.ExtensionsEnabledSetting, defs.True)
 	settings.SetDefault(defs.SandboxPathSetting, os.Getenv("VERIF_SANDBOX"))
 	settings.SetDefault(defs.RuntimeDeepScopeSetting, "true")
@@ -228,6 +234,10 @@ func TestVerifC07Run(t *testing.T) {
 		id, _ := strconv.Atoi(f[0])
 		if id < skip {
 			continue
+		}
+
+		if time.Now().After(deadline) {
+			break
 		}
 
 		src := []byte{}
